@@ -93,6 +93,70 @@ macro_rules! version {
                     None => Tree::Missing,
                 }
             }
+            pub fn bi(b: &Option<u5c::BigInt>) -> String {
+                match b.as_ref().and_then(|b| b.big_int.as_ref()) {
+                    Some(u5c::big_int::BigInt::Int(v)) => format!("I{v}"),
+                    Some(u5c::big_int::BigInt::BigUInt(x)) => format!("U{}", hex(x)),
+                    Some(u5c::big_int::BigInt::BigNInt(x)) => format!("N{}", hex(x)),
+                    None => "missing".into(),
+                }
+            }
+            pub fn tree_str(d: &u5c::PlutusData) -> String {
+                use u5c::plutus_data::PlutusData as P;
+                match &d.plutus_data {
+                    Some(P::Constr(c)) => format!("c({},{},[{}])", c.tag, c.any_constructor, c.fields.iter().map(tree_str).collect::<Vec<_>>().join(";")),
+                    Some(P::Map(m)) => format!("m([{}])", m.pairs.iter().map(|p| format!("{}={}", p.key.as_ref().map(tree_str).unwrap_or("missing".into()), p.value.as_ref().map(tree_str).unwrap_or("missing".into()))).collect::<Vec<_>>().join(";")),
+                    Some(P::Array(a)) => format!("a([{}])", a.items.iter().map(tree_str).collect::<Vec<_>>().join(";")),
+                    Some(P::BigInt(b)) => bi(&Some(b.clone())),
+                    Some(P::BoundedBytes(b)) => format!("b{}", hex(b)),
+                    None => "missing".into(),
+                }
+            }
+            pub fn native_str(n: &u5c::NativeScript) -> String {
+                use u5c::native_script::NativeScript as N;
+                let list = |xs: &Vec<u5c::NativeScript>| xs.iter().map(native_str).collect::<Vec<_>>().join(";");
+                match &n.native_script {
+                    Some(x) if pubkey_of(x).is_some() => format!("k{}", hex(&pubkey_of(x).unwrap())),
+                    Some(N::ScriptAll(l)) => format!("A[{}]", list(&l.items)),
+                    Some(N::ScriptAny(l)) => format!("O[{}]", list(&l.items)),
+                    Some(N::ScriptNOfK(k)) => format!("K{}[{}]", k.k, list(&k.scripts)),
+                    Some(N::InvalidBefore(s)) => format!("B{s}"),
+                    Some(N::InvalidHereafter(s)) => format!("F{s}"),
+                    _ => "missing".into(),
+                }
+            }
+            pub fn assets_str(ms: &[u5c::Multiasset]) -> String {
+                format!("{{{}}}", ms.iter().map(|p| format!("{}:{{{}}}", hex(&p.policy_id), p.assets.iter().map(|a| format!("{}={}", hex(&a.name), quantity_bi(a))).collect::<Vec<_>>().join(","))).collect::<Vec<_>>().join(","))
+            }
+            pub fn out_str(o: &u5c::TxOutput) -> String {
+                let d = o.datum.clone().unwrap_or_default();
+                let script = match o.script.as_ref().and_then(|s| s.script.as_ref()) {
+                    None => "none".to_string(),
+                    Some(u5c::script::Script::Native(n)) => format!("n{}", native_str(n)),
+                    Some(u5c::script::Script::PlutusV1(b)) => format!("p1.{}", hex(b)),
+                    Some(u5c::script::Script::PlutusV2(b)) => format!("p2.{}", hex(b)),
+                    Some(u5c::script::Script::PlutusV3(b)) => format!("p3.{}", hex(b)),
+                    #[allow(unreachable_patterns)]
+                    Some(_) => "other".to_string(),
+                };
+                format!("{}/{}/{}/{};{};{}/{}", hex(&o.address), bi(&o.coin), assets_str(&o.assets), hex(&d.hash),
+                    d.payload.as_ref().map(tree_str).unwrap_or("-".into()), datum_cbor(&d), script)
+            }
+            pub fn in_str(i: &u5c::TxInput) -> String { format!("{}:{}", hex(&i.tx_hash), i.output_index) }
+            /// canonical rendering of the mapped transaction; the second part is the witness redeemers (v1beta only)
+            pub fn render_tx(t: &u5c::Tx) -> (String, Option<String>) {
+                let l = |xs: &[u5c::TxInput]| format!("[{}]", xs.iter().map(in_str).collect::<Vec<_>>().join(" "));
+                let col = t.collateral.clone().unwrap_or_default();
+                let v = t.validity.clone().unwrap_or_default();
+                let w = t.witnesses.clone().unwrap_or_default();
+                let head = format!("hash={} in={} out=[{}] fee={} vs={} ttl={} mint={} col={} cr={} tc={} ref={} wd=[{}] certs={} pd=[{}]",
+                    hex(&t.hash), l(&t.inputs), t.outputs.iter().map(out_str).collect::<Vec<_>>().join(" "), bi(&t.fee), v.start, v.ttl,
+                    assets_str(&t.mint), l(&col.collateral), col.collateral_return.as_ref().map(out_str).unwrap_or("none".into()),
+                    bi(&col.total_collateral), l(&t.reference_inputs),
+                    t.withdrawals.iter().map(|x| format!("{}={}", hex(&x.reward_account), bi(&x.coin))).collect::<Vec<_>>().join(" "),
+                    t.certificates.len(), w.plutus_datums.iter().map(tree_str).collect::<Vec<_>>().join(" "));
+                (format!("{head} RD ok={}", t.successful as u8), witness_redeemers(&w))
+            }
             /// compare a mapped transaction with what pallas-traverse says about the source
             pub fn check_tx(tx: &MultiEraTx, m: &u5c::Tx, tag: &str, out: &mut Out) {
                 let v = stringify!($ver);
@@ -143,9 +207,22 @@ version!(va, v1alpha, {
     pub fn quantity(x: &u5c::Asset) -> Option<Canon> {
         match &x.quantity { Some(u5c::asset::Quantity::OutputCoin(b)) | Some(u5c::asset::Quantity::MintCoin(b)) => canon(b), None => None }
     }
+    pub fn quantity_bi(x: &u5c::Asset) -> String {
+        match &x.quantity { Some(u5c::asset::Quantity::OutputCoin(b)) | Some(u5c::asset::Quantity::MintCoin(b)) => bi(&Some(b.clone())), None => "missing".into() }
+    }
+    pub fn pubkey_of(x: &u5c::native_script::NativeScript) -> Option<Vec<u8>> { match x { u5c::native_script::NativeScript::ScriptPubkey(b) => Some(b.to_vec()), _ => None } }
+    pub fn datum_cbor(d: &u5c::Datum) -> String { hex(&d.original_cbor) }
+    pub fn witness_redeemers(_w: &u5c::WitnessSet) -> Option<String> { None }
 });
 version!(vb, v1beta, {
     pub fn quantity(x: &u5c::Asset) -> Option<Canon> { x.quantity.as_ref().and_then(canon) }
+    pub fn quantity_bi(x: &u5c::Asset) -> String { bi(&x.quantity) }
+    pub fn pubkey_of(x: &u5c::native_script::NativeScript) -> Option<Vec<u8>> { match x { u5c::native_script::NativeScript::ScriptPubkeyHash(b) => Some(b.to_vec()), _ => None } }
+    pub fn datum_cbor(d: &u5c::Datum) -> String { d.original_cbor.as_ref().map(|b| hex(b)).unwrap_or("-".into()) }
+    pub fn witness_redeemers(w: &u5c::WitnessSet) -> Option<String> {
+        Some(format!("[{}]", w.redeemers.iter().map(|r| { let e = r.ex_units.clone().unwrap_or_default();
+            format!("{}:{}:{}:{}:{}", r.purpose, r.index, e.memory, e.steps, r.payload.as_ref().map(tree_str).unwrap_or("missing".into())) }).collect::<Vec<_>>().join(" ")))
+    }
 });
 
 // ------------------------------------------------------------------------------------------ datum tokens
@@ -175,6 +252,120 @@ fn parse_data(t: &[String], pos: &mut usize) -> PlutusData {
         "u" => { let b = unhex(&t[*pos]).unwrap(); *pos += 1; PlutusData::BigInt(BigInt::BigUInt(BoundedBytes::from(b))) }
         "n" => { let b = unhex(&t[*pos]).unwrap(); *pos += 1; PlutusData::BigInt(BigInt::BigNInt(BoundedBytes::from(b))) }
         _ => { let b = unhex(&t[*pos]).unwrap(); *pos += 1; PlutusData::BoundedBytes(BoundedBytes::from(b)) }
+    }
+}
+
+/// the prefix-token form of a pallas datum (inverse of `parse_data`)
+fn data_tokens(d: &PlutusData, out: &mut Vec<String>) {
+    match d {
+        PlutusData::Constr(c) => {
+            out.push(format!("c {} {} {}", c.tag, c.any_constructor.map(|x| x.to_string()).unwrap_or("-".into()), c.fields.len()));
+            for f in c.fields.iter() { data_tokens(f, out); }
+        }
+        PlutusData::Map(m) => { out.push(format!("m {}", m.len())); for (k, v) in m.iter() { data_tokens(k, out); data_tokens(v, out); } }
+        PlutusData::Array(a) => { out.push(format!("a {}", a.len())); for x in a.iter() { data_tokens(x, out); } }
+        PlutusData::BigInt(BigInt::Int(i)) => out.push(format!("i {}", i128::from(*i))),
+        PlutusData::BigInt(BigInt::BigUInt(b)) => out.push(format!("u {}", hex(b))),
+        PlutusData::BigInt(BigInt::BigNInt(b)) => out.push(format!("n {}", hex(b))),
+        PlutusData::BoundedBytes(b) => out.push(format!("b {}", hex(b))),
+    }
+}
+fn native_tokens(n: &pallas_primitives::alonzo::NativeScript, out: &mut Vec<String>) {
+    use pallas_primitives::alonzo::NativeScript as N;
+    match n {
+        N::ScriptPubkey(h) => out.push(format!("k {}", hex(h.as_ref()))),
+        N::ScriptAll(xs) => { out.push(format!("A {}", xs.len())); for x in xs { native_tokens(x, out); } }
+        N::ScriptAny(xs) => { out.push(format!("O {}", xs.len())); for x in xs { native_tokens(x, out); } }
+        N::ScriptNOfK(k, xs) => { out.push(format!("K {} {}", k, xs.len())); for x in xs { native_tokens(x, out); } }
+        N::InvalidBefore(s) => out.push(format!("B {s}")),
+        N::InvalidHereafter(s) => out.push(format!("F {s}")),
+    }
+}
+fn opt_tok(x: Option<u64>) -> String { x.map(|v| v.to_string()).unwrap_or("-".into()) }
+
+fn output_tokens(o: &pallas_traverse::MultiEraOutput, out: &mut Vec<String>) {
+    use pallas_primitives::conway::{DatumOption, ScriptRef};
+    out.push(hex(&o.address().map(|a| a.to_vec()).unwrap_or_default()));
+    out.push(o.value().coin().to_string());
+    let value = o.value();
+    let assets = value.assets();
+    out.push(assets.len().to_string());
+    for p in &assets {
+        let xs = p.assets();
+        out.push(format!("{} {}", hex(p.policy().as_ref()), xs.len()));
+        for x in &xs { out.push(format!("{} {}", hex(x.name()), x.output_coin().unwrap_or(0))); }
+    }
+    match o.datum() {
+        None => out.push("dn".into()),
+        Some(DatumOption::Hash(h)) => out.push(format!("dh {}", hex(h.as_ref()))),
+        Some(DatumOption::Data(d)) => { out.push(format!("di {}", hex(d.raw_cbor()))); data_tokens(&d.0, out); }
+    }
+    match o.script_ref() {
+        None => out.push("sn".into()),
+        Some(ScriptRef::NativeScript(n)) => { out.push("ss".into()); native_tokens(&n, out); }
+        Some(ScriptRef::PlutusV1Script(b)) => out.push(format!("sp 1 {}", hex(b.0.as_ref()))),
+        Some(ScriptRef::PlutusV2Script(b)) => out.push(format!("sp 2 {}", hex(b.0.as_ref()))),
+        Some(ScriptRef::PlutusV3Script(b)) => out.push(format!("sp 3 {}", hex(b.0.as_ref()))),
+    }
+}
+
+/// the ledger view of a transaction as the mapper reads it through pallas-traverse, in prefix tokens
+fn view_tokens(tx: &MultiEraTx) -> Vec<String> {
+    use pallas_traverse::{MultiEraCert, OriginalHash};
+    let mut t: Vec<String> = vec![];
+    t.push(format!("hash {} valid {} fee {} vs {} ttl {} tc {}", hex(tx.hash().as_ref()), tx.is_valid() as u8, opt_tok(tx.fee()),
+        opt_tok(tx.validity_start()), opt_tok(tx.ttl()), opt_tok(tx.total_collateral())));
+    t.push(format!("certs {}", tx.certs().iter().filter(|c| matches!(c, MultiEraCert::AlonzoCompatible(_) | MultiEraCert::Conway(_))).count()));
+    let ins = |label: &str, xs: Vec<pallas_traverse::MultiEraInput>, t: &mut Vec<String>| {
+        t.push(format!("{label} {}", xs.len()));
+        for i in xs { t.push(format!("{} {}", hex(i.hash().as_ref()), i.index())); }
+    };
+    ins("in", tx.inputs_sorted_set(), &mut t);
+    ins("ref", tx.reference_inputs(), &mut t);
+    ins("col", tx.collateral(), &mut t);
+    let outs = tx.outputs();
+    t.push(format!("out {}", outs.len()));
+    for o in &outs { output_tokens(o, &mut t); }
+    match tx.collateral_return() { None => t.push("cr 0".into()), Some(o) => { t.push("cr 1".into()); output_tokens(&o, &mut t); } }
+    let mint = tx.mints_sorted_set();
+    t.push(format!("mint {}", mint.len()));
+    for p in &mint {
+        let xs = p.assets();
+        t.push(format!("{} {}", hex(p.policy().as_ref()), xs.len()));
+        for x in &xs { t.push(format!("{} {}", hex(x.name()), x.mint_coin().unwrap_or(0))); }
+    }
+    let wd = tx.withdrawals_sorted_set();
+    t.push(format!("wd {}", wd.len()));
+    for (a, c) in wd { t.push(format!("{} {}", hex(a), c)); }
+    let pd = tx.plutus_data();
+    t.push(format!("pd {}", pd.len()));
+    for d in pd { t.push(hex(d.original_hash().as_ref())); data_tokens(d, &mut t); }
+    let rd = tx.redeemers();
+    t.push(format!("rd {}", rd.len()));
+    for r in &rd {
+        use pallas_primitives::conway::RedeemerTag as T;
+        let tag = match r.tag() { T::Spend => 0, T::Mint => 1, T::Cert => 2, T::Reward => 3, T::Vote => 4, T::Propose => 5 };
+        t.push(format!("{} {} {} {}", tag, r.index(), r.ex_units().mem, r.ex_units().steps));
+        data_tokens(r.data(), &mut t);
+    }
+    t.iter().flat_map(|l| l.split(' ').map(|x| x.to_string())).collect()
+}
+
+/// `txview` source: `file block <name> <i>` | `file tx <name>` | `raw <hex>` (a Conway transaction)
+fn with_source_tx<R>(src: &[String], f: impl FnOnce(&MultiEraTx) -> R) -> Option<R> {
+    let dir = std::path::PathBuf::from(std::env::var("PV_REPO").unwrap_or_else(|_| "/repo".into())).join("test_data");
+    match src[0].as_str() {
+        "raw" => { let raw = unhex(&src[1])?; let tx = MultiEraTx::decode_for_era(Era::Conway, &raw).ok()?; Some(f(&tx)) }
+        "file" => {
+            let raw = hex::decode(std::fs::read_to_string(dir.join(&src[2])).ok()?.trim()).ok()?;
+            if src[1] == "block" {
+                let block = MultiEraBlock::decode(&raw).ok()?;
+                let txs = block.txs();
+                let tx = txs.get(src[3].parse::<usize>().ok()?)?;
+                Some(f(tx))
+            } else { let tx = MultiEraTx::decode(&raw).ok()?; Some(f(&tx)) }
+        }
+        _ => None,
     }
 }
 
@@ -255,6 +446,28 @@ pub fn run_case(case: &Case, out: &mut Out) {
                         out.ok(got[0].2.clone());
                     }
                     _ => { out.viol(format!("panic op=map_tx scalar={}", op[0]), op[1].clone()); out.panic(); }
+                }
+            }
+            "txview" => {
+                let bar = op.iter().position(|t| t == "|").unwrap_or(op.len());
+                let r = with_source_tx(&op[1..bar], |tx| {
+                    let view = view_tokens(tx);
+                    let (a, b) = (guard_mut(|| ma.map_tx(tx)), guard_mut(|| mb.map_tx(tx)));
+                    (view, a, b, tx.hash().to_vec())
+                });
+                match r {
+                    None => { out.viol("txview-source-unreadable", op[1..bar].join(" ")); out.reply("bad-source".into()); }
+                    Some((view, Some(a), Some(b), _)) => {
+                        if view[..] != op[(bar + 1).min(op.len())..] { out.viol("generator-view-differs-from-run-view", op[1..bar].join(" ")); }
+                        let ((ha, _), (hb, rdb)) = (va::render_tx(&a), vb::render_tx(&b));
+                        if ha != hb { out.viol("schema-versions-disagree op=map_tx", op[1..bar].join(" ")); }
+                        // the independent field-by-field comparison with pallas-traverse
+                        with_source_tx(&op[1..bar], |tx| { va::check_tx(tx, &a, &op[1..bar].join(" "), out); vb::check_tx(tx, &b, &op[1..bar].join(" "), out); });
+                        if b.outputs.iter().any(|o| !o.assets.is_empty()) || !b.mint.is_empty() { outside = true; }
+                        if !b.outputs.is_empty() && !b.inputs.is_empty() { nested = true; }
+                        out.ok(hb.replace(" RD ", &format!(" rd={} ", rdb.unwrap_or_default())));
+                    }
+                    Some(_) => { out.viol("panic op=map_tx", op[1..bar].join(" ")); out.panic(); }
                 }
             }
             "txdatum" => {
@@ -342,6 +555,52 @@ fn gen_data(g: &mut Gen, depth: u32, encodable: bool) -> String {
     }
 }
 
+fn data_cbor(g: &mut Gen) -> Vec<u8> {
+    let toks: Vec<String> = gen_data(g, 2, true).split(' ').map(|x| x.to_string()).collect();
+    let mut pos = 0;
+    minicbor::to_vec(&parse_data(&toks, &mut pos)).expect("datum encodes")
+}
+
+/// a random Conway transaction assembled with pallas-txbuilder (hex of its bytes)
+fn gen_built(g: &mut Gen) -> Option<String> {
+    const NATIVE: [&str; 3] = ["8200581c01010101010101010101010101010101010101010101010101010101", "82041903e8",
+        "8303018282051864820181 8200581c02020202020202020202020202020202020202020202020202020202"];
+    let h32 = |g: &mut Gen| -> [u8; 32] { let mut a = [0u8; 32]; a[0] = g.rng.below(3) as u8; a[31] = g.rng.below(4) as u8; a };
+    let pol = |g: &mut Gen| -> [u8; 28] { [0x10 + g.rng.below(3) as u8; 28] };
+    let mut inputs = vec![];
+    let mut st = StagingTransaction::new().fee(g.rng.u64_edgy());
+    for _ in 0..g.rng.range(1, 3) { let i = Input::new(h32(g).into(), g.rng.below(3)); inputs.push(i.clone()); st = st.input(i); }
+    let mk_out = |g: &mut Gen| -> Option<Output> {
+        let mut o = Output::new(addr(), g.rng.u64_edgy());
+        for _ in 0..g.rng.below(3) { let amt = match g.rng.below(4) { 0 => u64::MAX / 2 + 1 + g.rng.below(1000), _ => 1 + g.rng.below(100000) }; o = o.add_asset(pol(g).into(), rbytes(g, 1, 3), amt).ok()?; }
+        match g.rng.below(4) { 0 => o = o.set_datum_hash({ let mut a = [7u8; 32]; a[3] = g.rng.below(200) as u8; a }.into()), 1 | 2 => o = o.set_inline_datum(data_cbor(g)), _ => {} }
+        match g.rng.below(5) {
+            0 => o = o.set_inline_script(pallas_txbuilder::ScriptKind::Native, unhex(&NATIVE[g.rng.below(3) as usize].replace(' ', "")).unwrap()),
+            1 => o = o.set_inline_script([pallas_txbuilder::ScriptKind::PlutusV1, pallas_txbuilder::ScriptKind::PlutusV2, pallas_txbuilder::ScriptKind::PlutusV3][g.rng.below(3) as usize], g.rng.bytes(5)),
+            _ => {}
+        }
+        Some(o)
+    };
+    for _ in 0..g.rng.range(1, 3) { st = st.output(mk_out(g)?); }
+    if g.rng.chance(1, 2) { st = st.mint_asset(pol(g).into(), vec![0x41], match g.rng.below(4) { 0 => i64::MIN, 1 => i64::MAX, 2 => -7, _ => 9 }).ok()?; }
+    if g.rng.chance(1, 3) { st = st.collateral_input(Input::new(h32(g).into(), 1)).collateral_output(mk_out(g)?); }
+    if g.rng.chance(1, 3) { st = st.reference_input(Input::new(h32(g).into(), g.rng.below(5))); }
+    if g.rng.chance(1, 2) { st = st.valid_from_slot(g.rng.u64_edgy()); }
+    if g.rng.chance(1, 2) { st = st.invalid_from_slot(g.rng.u64_edgy()); }
+    for _ in 0..g.rng.below(3) { st = st.datum(data_cbor(g)); }
+    if g.rng.chance(1, 2) {
+        let i = inputs[g.rng.below(inputs.len() as u64) as usize].clone();
+        st = st.add_spend_redeemer(i, data_cbor(g), Some(pallas_txbuilder::ExUnits { mem: g.rng.u64_edgy(), steps: g.rng.u64_edgy() }));
+    }
+    let built = guard_mut(|| st.build_conway_raw())?.ok()?;
+    Some(hex(&built.tx_bytes.0))
+}
+
+fn txview_line(src: &str) -> Option<String> {
+    let toks: Vec<String> = src.split(' ').map(|x| x.to_string()).collect();
+    with_source_tx(&toks, |tx| format!("txview {} | {}", src, view_tokens(tx).join(" ")))
+}
+
 pub fn generate(g: &mut Gen) {
     // every block and transaction file of test_data, a few per case
     let dir = std::path::PathBuf::from(std::env::var("PV_REPO").unwrap_or_else(|_| "/repo".into())).join("test_data");
@@ -356,6 +615,19 @@ pub fn generate(g: &mut Gen) {
     let start = if g.thorough() { 0 } else { (g.seed as usize * 36) % files.len().max(1) };
     let chosen: Vec<(String, String)> = (0..take).map(|i| files[(start + i) % files.len()].clone()).collect();
     for chunk in chosen.chunks(per) { g.case(chunk.iter().map(|(k, n)| format!("file {k} {n}"))); }
+    // the same files through the map_tx model: every transaction (quick: the first few of each block)
+    let dirp = dir.clone();
+    for (k, n) in &chosen {
+        let mut ops = vec![];
+        if k == "tx" { if let Some(l) = txview_line(&format!("file tx {n}")) { ops.push(l); } }
+        else {
+            let count = std::fs::read_to_string(dirp.join(n)).ok().and_then(|s| hex::decode(s.trim()).ok())
+                .and_then(|raw| MultiEraBlock::decode(&raw).ok().map(|b| b.txs().len())).unwrap_or(0);
+            let limit = if g.thorough() { count } else { count.min(4) };
+            for i in 0..limit { if let Some(l) = txview_line(&format!("file block {n} {i}")) { ops.push(l); } }
+        }
+        if !ops.is_empty() { g.case(ops); }
+    }
     for case in 0..g.cases {
         let mut ops = vec![];
         for _ in 0..g.rng.range(3, 8) {
@@ -368,6 +640,7 @@ pub fn generate(g: &mut Gen) {
             });
         }
         if case % 4 == 0 { ops.push(format!("datum c 121 - 2 i 9223372036854775808 m 1 b 01 a 2 i -18446744073709551616 n {}", hex(&[0xffu8; 9]))); }
+        for _ in 0..2 { if let Some(h) = gen_built(g) { if let Some(l) = txview_line(&format!("raw {h}")) { ops.push(l); } } }
         g.case(ops);
     }
 }
